@@ -495,11 +495,12 @@ func (lb *LoadBalancer) RemoveBackend(name string) {
 	lb.mutex.Lock()
 	defer lb.mutex.Unlock()
 
-	// Find the backend by name
+	// Remove every backend registered under the name (the admin API allows the
+	// same name to be added more than once); GetBackends returns a copy, so the
+	// pool can be modified while iterating
 	for _, backend := range lb.strategy.GetBackends() {
 		if backend.Name == name {
 			lb.strategy.RemoveBackend(backend)
-			break
 		}
 	}
 }
